@@ -19,6 +19,10 @@ type SwComponents[I ISwComponent] struct {
 
 func (o SwComponents[I]) Validate() error {
 	for i, sc := range o.values {
+		if isNilSwComponent(sc) {
+			return fmt.Errorf("failed at index %d: %w: null entry", i, ErrWrongSyntax)
+		}
+
 		if err := sc.Validate(); err != nil {
 			return fmt.Errorf("failed at index %d: %w", i, err)
 		}
@@ -31,6 +35,10 @@ func (o SwComponents[I]) Values() ([]ISwComponent, error) {
 	ret := make([]ISwComponent, len(o.values))
 
 	for i, sc := range o.values {
+		if isNilSwComponent(sc) {
+			return nil, fmt.Errorf("failed at index %d: %w: null entry", i, ErrWrongSyntax)
+		}
+
 		if err := sc.Validate(); err != nil {
 			return nil, fmt.Errorf("failed at index %d: %w", i, err)
 		}
@@ -101,4 +109,16 @@ func validateAndConvert[I ISwComponent](vals []ISwComponent) ([]I, error) {
 	}
 
 	return ret, nil
+}
+
+// isNilSwComponent returns true if sc is a nil interface or holds a nil
+// pointer (e.g. as a result of decoding a "null" array entry).
+func isNilSwComponent(sc ISwComponent) bool {
+	if sc == nil {
+		return true
+	}
+
+	v := reflect.ValueOf(sc)
+
+	return v.Kind() == reflect.Pointer && v.IsNil()
 }
